@@ -7,5 +7,5 @@ set -e
 n="$1"; d=/tmp/wt/$n
 mkdir -p /tmp/wt
 git -C /repo worktree add -q --detach "$d" HEAD
-[ -n "$2" ] && git -C "$d" apply "$2"
+[ -n "$2" ] && git -C "$d" apply "$(readlink -f "$2")"
 echo "$d"
